@@ -175,6 +175,12 @@ def _history_text(h):
         d = {"op": o["op"], "n": _txt(o["n"])}
         if o["op"] == "opt":
             d["on"] = o["hv"]
+        elif o["op"] == "enter":
+            d = {"op": "enter", "n": _txt(o["n"])}     # what follows happens inside this function's body
+        elif o["op"] == "local":
+            d["attrs"] = ["", "-x", "-r", "-x -r"][o["m"] & 3]
+            if o["hv"]:
+                d["v"] = [_txt(x) for x in o["v"]]
         elif o["op"] == "umask":
             d = {"op": "umask", "m": "%03o" % o["m"]}
         elif o["hv"]:
@@ -206,9 +212,9 @@ def _state_violations(rep, bad, what):
             key["names"] = "+".join(sorted({_name_class(n) for n in failing}))
             key["function_keyword"] = bool(obs) and any(
                 ln.startswith("function ") for ln in obs[0].get("txt", "").split("\n"))
-        if kind in ("export", "readonly", "typeset"):
-            key["plus_name"] = any(o["op"] in ("export", "readonly", "typeset") and _txt(o["n"]).startswith("+")
-                                   for o in h)
+        if kind in ("export", "readonly", "typeset", "typesetg"):
+            key["plus_name"] = any(o["op"] in ("export", "readonly", "typeset", "local")
+                                   and _txt(o["n"]).startswith("+") for o in h)
         key["history"] = json.dumps(_history_text(h), ensure_ascii=False)
         rep.violation(key, f"{what}: {why} {kind} {mode}: history {key['history']}",
                       {"part": "state", "c": rec.get("c", ""), "h": h})
@@ -255,7 +261,7 @@ def _run_state(tier, wd, rep, ev):
     vlib.run_harness(PKG, ["state-random", "--n", n, "--maxops", 6 if tier == "quick" else 8, "--out", part])
     _append_trace(trace, part)
     bad, info = _judge("Trace_ShellState", trace, header=1, shards=4 if tier == "quick" else 8)
-    vlib.log(f"[p2] {n_gen} generated + {n} random histories replayed on the real shell (10 printers x 2 ways of "
+    vlib.log(f"[p2] {n_gen} generated + {n} random histories replayed on the real shell (11 printers x 2 ways of "
              f"evaluation), judged by Trace_ShellState in {info['wall']:.1f}s: {len(bad)} rejected observations, "
              f"{info['skip']} skipped")
     _state_violations(rep, bad, "history")
@@ -283,9 +289,10 @@ def _run_state(tier, wd, rep, ev):
                "printouts_evaluated_by_printer": own_kinds,
                "operations_not_exercised": [k for k in ("assign", "array", "export", "export:novalue", "readonly",
                                                         "readonly:novalue", "typeset", "typeset:novalue", "alias",
-                                                        "func", "opt", "opt:novalue", "trap", "trap:novalue", "umask")
+                                                        "func", "opt", "opt:novalue", "trap", "trap:novalue", "umask",
+                                                        "enter", "local", "local:novalue")
                                             if not ops.get(k)],
-               "printers_not_exercised": [k for k in ("alias", "export", "readonly", "typeset", "functions", "set",
+               "printers_not_exercised": [k for k in ("alias", "export", "readonly", "typeset", "typesetg", "functions", "set",
                                                       "options", "trap", "umask", "umaskS") if not own_kinds.get(k)]})
     return states, transitions, n_gen + n, samples
 
@@ -310,7 +317,7 @@ def run(tier):
         "evaluations": qn * 6 + ev["state_printouts_evaluated_in_fresh_shell"] + sn,
         "distinct_nontrivial": qn + sn,
         "rule": "one per distinct string s (real quote(s) read back by the real shell in 5 contexts and by the "
-                "spec's reader in 3) plus one per distinct definition history (10 printers, each printout that "
+                "spec's reader in 3) plus one per distinct definition history (11 printers, issued at top level or from inside a function body, each printout that "
                 "differs from the base shell's evaluated in 2 fresh shells)",
         "exhaustive": True,
         "bounds": {"alphabet": 28, "max_len": 3 if tier == "quick" else 4,
